@@ -8,12 +8,12 @@ package main
 // prints one JSON document with per-entry results.
 
 import (
-	"runtime/pprof"
 	"encoding/json"
 	"flag"
 	"fmt"
 	"os"
 	"path/filepath"
+	"runtime/pprof"
 	"sort"
 	"strings"
 	"time"
@@ -163,6 +163,15 @@ func cmdExec(args []string) {
 		os.Exit(3)
 	}
 	loadS := time.Since(t0).Seconds()
+	// environment stubs written in the harness: a harness function vStub_<name> replaces the
+	// function whose full name, with every non-alphanumeric rune turned into '_', is <name>
+	// (e.g. vStub___net_http_Transport__RoundTrip for (*net/http.Transport).RoundTrip)
+	harnessStubs = map[string]*ssa.Function{}
+	for name, mem := range mainPkg.Members {
+		if f, ok := mem.(*ssa.Function); ok && strings.HasPrefix(name, "vStub_") {
+			harnessStubs[strings.TrimPrefix(name, "vStub_")] = f
+		}
+	}
 	var results []*EntryResult
 	for _, entry := range strings.Split(*entries, ",") {
 		fn := mainPkg.Func(entry)
